@@ -1,5 +1,9 @@
-(** RFC 4648 base32 *encoding*, written as bit regrouping (8 -> 5), independent of the
-    arithmetic used by the implementation.  Used as the specification for C07 and C08. *)
+(** RFC 4648 section 6, base32 *encoding*, written as the RFC describes it: the input is
+    taken in groups of 5 bytes (40 bits); the bits of a group, most significant first, are cut
+    into 5-bit groups (the last one zero-padded), each of which indexes the alphabet
+    A-Z 2-7; a final group of 1,2,3,4 bytes gives 2,4,5,7 characters and the canonical form
+    adds '=' up to 8.  Independent of the shifts and masks of the implementation.
+    Used as the specification for C07 and C08. *)
 From OtpV Require Import Prelude.
 Open Scope N_scope.
 
@@ -11,23 +15,30 @@ Fixpoint to_bits (k : nat) (n : N) : list bool :=
   end.
 Definition of_bits (l : list bool) : N := fold_left (fun acc (b : bool) => 2 * acc + (if b then 1 else 0)) l 0.
 
-Fixpoint chunks_fuel {A} (fuel n : nat) (l : list A) : list (list A) :=
-  match fuel with
-  | O => []
-  | S f => match l with [] => [] | _ => firstn n l :: chunks_fuel f n (skipn n l) end
+(** five bits at a time; an incomplete last group is padded with zero bits *)
+Fixpoint quintets (l : list bool) : list (list bool) :=
+  match l with
+  | [] => []
+  | a :: b :: c :: d :: e :: t => [a; b; c; d; e] :: quintets t
+  | _ => [firstn 5 (l ++ [false; false; false; false])]
   end.
-Definition chunks {A} (n : nat) (l : list A) : list (list A) := chunks_fuel (length l) n l.
 
-(** pad a bit list on the right with [false] to a multiple of 5 *)
-Definition pad5 (l : list bool) : list bool :=
-  l ++ repeat false (Nat.modulo (5 - Nat.modulo (length l) 5) 5).
+(** the input five bytes at a time *)
+Fixpoint groups5 (bs : bytes) : list bytes :=
+  match bs with
+  | [] => []
+  | a :: b :: c :: d :: e :: t => [a; b; c; d; e] :: groups5 t
+  | _ => [bs]
+  end.
 
 (** 'A'..'Z','2'..'7' *)
 Definition b32_char (v : N) : N := if v <? 26 then 65 + v else 50 + (v - 26).
 
-(** unpadded encoding: the bits of the bytes, zero-padded to a multiple of 5, five at a time *)
-Definition b32_nopad (bs : bytes) : bytes :=
-  map (fun g => b32_char (of_bits g)) (chunks 5 (pad5 (flat_map (to_bits 8) bs))).
+Definition encode_group (g : bytes) : bytes :=
+  map (fun q => b32_char (of_bits q)) (quintets (flat_map (to_bits 8) g)).
+
+(** unpadded encoding *)
+Definition b32_nopad (bs : bytes) : bytes := flat_map encode_group (groups5 bs).
 
 (** number of '=' in the canonical padded form *)
 Definition b32_npad (bs : bytes) : nat :=
